@@ -194,3 +194,42 @@ def mk_table(h, name, cols=2):
     h.assume(ops.compare('<=', ops.arith('+', idx, 1), cap))
     arr = h.ctx.fresh_arr(name + '.array', n=cap, np=True, cols=cols)
     return Obj(cls, {'index': idx, 'array': arr, 'bucket_size': 10, 'shape': (10, cols), 'drop_at': None}, name=name)
+
+
+def frame_task(quals, tag='frame', allow=()):
+    """mechanical frame condition for helper functions: the function reads no mutable module-level object and calls no memoised helper
+    of its own module, so its result is a function of its arguments (and of what the functions it calls are contracted to read) -
+    whatever was computed earlier in the same process"""
+    import ast
+    import builtins
+
+    def t(h):
+        bnames = set(dir(builtins))
+        for qual in quals:
+            f = h.repo.find(qual)
+            node = f.node
+            local = {a.arg for a in node.args.args + node.args.kwonlyargs + node.args.posonlyargs}
+            for n in ast.walk(node):
+                if isinstance(n, ast.Name) and isinstance(n.ctx, (ast.Store, ast.Del)):
+                    local.add(n.id)
+            bad = []
+            if any(isinstance(n, (ast.Global, ast.Nonlocal)) for n in ast.walk(node)):
+                bad.append('global statement')
+            for n in ast.walk(node):
+                if isinstance(n, ast.Name) and isinstance(n.ctx, ast.Load) and n.id not in local and n.id not in bnames and n.id not in allow:
+                    ent = f.mod.top.get(n.id)
+                    if isinstance(ent, ast.FunctionDef):
+                        decs = [ast.unparse(d) for d in ent.decorator_list]
+                        if any(('cache' in d or 'memo' in d) for d in decs):
+                            bad.append(f'{n.id} (memoised: @{", @".join(decs)})')
+                        continue
+                    if isinstance(ent, ast.ClassDef) or (isinstance(ent, tuple) and ent[0] in ('import', 'from')):
+                        continue
+                    if isinstance(ent, (ast.Assign, ast.AnnAssign)) and isinstance(ent.value, ast.Constant):
+                        continue
+                    if ent is None:
+                        continue
+                    bad.append(n.id)
+            h.prove(bad == [], f'{tag}.{qual.split(".")[-1]}.reads-no-mutable-module-level-state-and-calls-no-memoised-helper',
+                    {'offending_names': sorted(set(bad))})
+    return t
